@@ -19,7 +19,9 @@ theorem step_panicked_tx (s : St) (op : Op) (h : op.txLevel = true) : (step s op
   unfold step
   split
   · split <;> rfl
-  · cases op <;> simp only [exec, St.throw, St.done, afterPosted] <;> (repeat' split) <;> first | rfl | (simp [Op.txLevel] at h)
+  · split
+    · rfl
+    · cases op <;> simp only [exec, St.throw, St.done, afterPosted] <;> (repeat' split) <;> first | rfl | (simp [Op.txLevel] at h)
 
 theorem run_panicked_tx (s : St) (ops : List Op) (h : ∀ op ∈ ops, op.txLevel = true) : (run s ops).panicked = s.panicked := by
   induction ops generalizing s with
@@ -95,8 +97,7 @@ def Blk.txOnly (b : Blk) : Prop := ∀ op ∈ b.body, op.txLevel = true
 theorem onPersist_no_panic {nt : Nat} (s : St) (b : Blk) (hm : MInv nt s) (hg : GMInv s) (hfee : 0 ≤ s.env.attrFee)
     (hc : Covered s.env s.cur b) :
     (step s (.onPersist b.pidx b.notaries b.txs)).panicked = s.panicked := by
-  have hstep : step s (.onPersist b.pidx b.notaries b.txs) = exec s (.onPersist b.pidx b.notaries b.txs) := by
-    unfold step; simp [Op.isCall]
+  have hstep : step s (.onPersist b.pidx b.notaries b.txs) = exec s (.onPersist b.pidx b.notaries b.txs) := step_eq_exec _ _ rfl
   rw [hstep]
   simp only [exec]
   rw [if_neg (by
@@ -113,12 +114,12 @@ theorem onPersist_no_panic {nt : Nat} (s : St) (b : Blk) (hm : MInv nt s) (hg : 
       simp only [h1, h2]
 
 theorem block_bnd_panicked (s : St) : (step s (.block (s.env.index + 1))).panicked = s.panicked := by
-  have hstep : step s (.block (s.env.index + 1)) = exec s (.block (s.env.index + 1)) := by unfold step; simp [Op.isCall]
+  have hstep : step s (.block (s.env.index + 1)) = exec s (.block (s.env.index + 1)) := step_eq_exec _ _ rfl
   rw [hstep]; rfl
 
 theorem postPersist_no_panic {nt : Nat} (s : St) (hm : MInv nt s) (hg : GMInv s) (hcs : s.env.csize ≠ 0)
     (hA : ∀ k, acctOf s.env k ≠ s.env.notary) : (step s .postPersist).panicked = s.panicked := by
-  have hstep : step s .postPersist = exec s .postPersist := by unfold step; simp [Op.isCall]
+  have hstep : step s .postPersist = exec s .postPersist := step_eq_exec _ _ rfl
   rw [hstep]
   simp only [exec]
   have hno : ¬ (s.cur.committee.any (fun c => decide (acctOf s.env c.1 = s.env.notary))) = true := by
@@ -137,7 +138,9 @@ theorem step_attrFee (s : St) (op : Op) : (step s op).env.attrFee = s.env.attrFe
   unfold step
   split
   · split <;> rfl
-  · cases op <;> simp only [exec, St.throw, St.done, afterPosted] <;> (repeat' split) <;> rfl
+  · split
+    · rfl
+    · cases op <;> simp only [exec, St.throw, St.done, afterPosted] <;> (repeat' split) <;> rfl
 
 theorem run_attrFee (s : St) (ops : List Op) : (run s ops).env.attrFee = s.env.attrFee := by
   induction ops generalizing s with
